@@ -29,6 +29,14 @@ def neighbours(s, alphabet, whole=True):
                      (''.join(ch for ch in s if ch.isalnum()), 'strip-seps')):
             if t != s:
                 yield t, 'whole:' + d
+        # optional components: the written number without its last / first group(s)
+        for sep in dict.fromkeys(ch for ch in s if not ch.isalnum()):
+            parts = s.split(sep)
+            if len(parts) >= 2:
+                for t, d in ((sep.join(parts[:-1]), 'drop-last-group'), (sep.join(parts[1:]), 'drop-first-group'),
+                             (sep.join(parts[:-2]), 'drop-last-two-groups')):
+                    if t and t != s:
+                        yield t, 'whole:' + d
         # heavy but uniform decoration (fixed-width padding, one separator between all characters, tripled separators)
         a = ''.join(ch for ch in s if ch.isalnum())
         for t, d in ((' '.join(a), 'spaced'), ('-'.join(a), 'hyphenated'), ('.'.join(a), 'dotted'),
